@@ -85,6 +85,7 @@ func checkCmd(args []string) int {
 	fs := flag.NewFlagSet("check", flag.ExitOnError)
 	relock := fs.Bool("relock", false, "rewrite the lock entry of this property from the current results")
 	keep := fs.Bool("keep", false, "keep SMT files")
+	dry := fs.Bool("dry", false, "self-test run on a scratch tree: no evidence, no replay on the real code, no lock update")
 	fs.Parse(args)
 	if fs.NArg() < 1 {
 		fmt.Fprintln(os.Stderr, "usage: gvc check [-relock] <property> [quick|thorough]")
@@ -103,13 +104,18 @@ func checkCmd(args []string) int {
 		seed, _ = strconv.Atoi(s)
 	}
 	t0 := time.Now()
-	timeout := 45
+	timeout := 90
 	needAll := false
 	if tier == "thorough" {
-		timeout = 180
+		timeout = 240
 		needAll = true
 	}
 	evPath := filepath.Join(verifDir, "evidence", prop+".json")
+	if *dry {
+		evPath = filepath.Join(os.TempDir(), fmt.Sprintf("gvc-dry-%d-%s.json", os.Getpid(), prop))
+		defer os.Remove(evPath)
+		dryRun = true
+	}
 	os.MkdirAll(filepath.Dir(evPath), 0o755)
 	os.Remove(evPath)
 	fail := func(msg string) int {
@@ -215,7 +221,7 @@ func checkCmd(args []string) int {
 			}
 		}
 	}
-	pool := make(chan struct{}, 7)
+	pool := make(chan struct{}, 6)
 	for _, j := range jobs {
 		e.renderScripts(j.obls, j.r.Axioms, j.r.Assumes, j.r.AssumePCs)
 	}
@@ -377,6 +383,9 @@ func checkCmd(args []string) int {
 		"not_claimed":              notClaimedSeen,
 		"engine_notes":             notes,
 	}
+	if tier == "thorough" && !*dry {
+		cov["must_fail_selftest"] = selfTest(prop)
+	}
 	writeEvidence(evPath, prop, tier, seed, time.Since(t0).Seconds(), reports, cov, tb, violations, nil, &[2]int{claimed, discharged})
 	fmt.Printf("property %s (%s): %d obligations, %d discharged, %d known findings, %d violations, %.1fs\n", prop, tier, claimed, discharged, len(knownPrinted), violations, time.Since(t0).Seconds())
 	if violations > 0 {
@@ -482,7 +491,12 @@ var notDecided = map[string][]string{}
 // replayObligation writes the replay file of a failed obligation and, where a
 // model is available and the function's inputs can be materialised, runs the
 // real code on it.  It reports whether a failing input was confirmed.
+var dryRun bool
+
 func (e *Engine) replayObligation(prop string, o *Obligation, why string) (string, bool) {
+	if dryRun {
+		return "(self-test run: no replay)", false
+	}
 	payload := map[string]any{
 		"obligation":    o.ID,
 		"kind":          o.Kind,
@@ -685,4 +699,68 @@ func (e *Engine) allPropsDeep(c *Contract) []string {
 	}
 	visit(e.funcsByName[c.Key], 0)
 	return sortedKeys(set)
+}
+
+// selfTest (thorough tier): every seeded change of /verif/seeded that targets
+// this property is applied to a scratch copy of the tree under verification
+// and the quick check is run on that copy; the change must be reported.  The
+// result goes into the evidence; it never changes the verdict about /repo.
+func selfTest(prop string) []map[string]any {
+	var out []map[string]any
+	dirs, _ := filepath.Glob(filepath.Join(verifDir, "seeded", "*"))
+	sort.Strings(dirs)
+	for _, d := range dirs {
+		var meta struct {
+			Property  string   `json:"property"`
+			AlsoCheck []string `json:"also_check"`
+			Status    string   `json:"status"`
+		}
+		readJSON(filepath.Join(d, "meta.json"), &meta)
+		if meta.Property != prop && !hasProp(meta.AlsoCheck, prop) {
+			continue
+		}
+		res := map[string]any{"seed": filepath.Base(d)}
+		out = append(out, res)
+		scratch, err := os.MkdirTemp("", "gvc-selftest-")
+		if err != nil {
+			res["result"] = "skipped: " + err.Error()
+			continue
+		}
+		func() {
+			defer os.RemoveAll(scratch)
+			if o, err := exec.Command("rsync", "-a", "--exclude", ".git", repoDir+"/", scratch+"/").CombinedOutput(); err != nil {
+				res["result"] = "skipped: copy failed: " + firstLines(string(o), 2)
+				return
+			}
+			ap := exec.Command("git", "apply", filepath.Join(d, "patch.diff"))
+			ap.Dir = scratch
+			if o, err := ap.CombinedOutput(); err != nil {
+				res["result"] = "not applicable: the change no longer applies (" + firstLines(string(o), 1) + ")"
+				if meta.Status != "" {
+					res["note"] = meta.Status
+				}
+				return
+			}
+			cmd := exec.Command(os.Args[0], "check", "-dry", prop, "quick")
+			cmd.Env = append(os.Environ(), "GVC_REPO="+scratch, "VERIF_TIER=quick")
+			o, _ := cmd.CombinedOutput()
+			var failed []string
+			for _, l := range strings.Split(string(o), "\n") {
+				if strings.HasPrefix(l, "FAILED ") || strings.HasPrefix(l, "MISSING ") || strings.HasPrefix(l, "CHECK-BROKEN") {
+					failed = append(failed, l)
+				}
+			}
+			if len(failed) > 0 {
+				res["result"] = "reported"
+				if len(failed) > 4 {
+					failed = failed[:4]
+				}
+				res["by"] = failed
+			} else {
+				res["result"] = "MISSED"
+				fmt.Printf("SELFTEST-MISS property=%s seed=%s: the seeded change was not reported\n", prop, filepath.Base(d))
+			}
+		}()
+	}
+	return out
 }
